@@ -219,6 +219,44 @@ def three_channel_oracle(chk, rng, cap_s: int = 1200):
     return bad
 
 
+def _run_n3(args: list[str], cap_s: int):
+    import os
+
+    env = dict(os.environ)
+    env["PYTHONPATH"] = str(common.ROOT) + os.pathsep + env.get("PYTHONPATH", "")
+    return subprocess.run([common.PY, "-m", "tools.corr.C09_n3", *args], capture_output=True, text=True,
+                          timeout=cap_s, cwd=str(common.ROOT), env=env)
+
+
+def n3_module(chk, tier: str, seed: int, cap_s: int = 900) -> list[str]:
+    """Thorough tier: regenerate Gen/C09N3.lean (+ Float twin) from formulate(3, ·, parametrize=False)
+    in a capped subprocess, validate it, and have Props/C09N3.lean re-checked."""
+    if tier != "thorough":
+        chk.info("n3_entries", "not regenerated in the quick tier (Props/C09N3 is a thorough-tier module)")
+        return []
+    try:
+        p = _run_n3([str(seed), "20"], cap_s)
+    except subprocess.TimeoutExpired:
+        chk.info("n3_entries", f"not_extracted (time cap {cap_s}s); covered by the all-n theorems and the numeric oracle only")
+        return []
+    if p.returncode != 0:
+        chk.broken_correspondence("translator", "n = 3 translation failed: " + p.stderr[-500:])
+        return []
+    res = json.loads(p.stdout.strip().split("\n")[-1])
+    chk.info("n3_entries", {k: res[k] for k in ("definitions", "points", "mismatches")})
+    chk.count(("n3-validation", res["points"]), res["points"])
+    for b in res["broken"]:
+        chk.broken.append(b)
+    return ["Ampverif.Props.C09N3"]
+
+
+def n3_regenerate(cap_s: int = 900):
+    try:
+        _run_n3(["0", "0", "novalidate"], cap_s)
+    except subprocess.TimeoutExpired:
+        print("C09: n = 3 definitions not regenerated (time cap); the committed copy stays")
+
+
 def signature_of(f: dict) -> dict:
     if f.get("kind") == "rel" and f.get("sub_threshold_pole"):
         return {"class": KNOWN_CLASS}
@@ -257,6 +295,8 @@ PROP = KProperty(
     signature_of=signature_of,
     n_points={"quick": 6, "thorough": 40},
     n_search={"quick": 60, "thorough": 900},
+    extra_modules=n3_module,
+    extra_regenerate=n3_regenerate,
     trusted=(
         "phase-space factors and form factors are leaves of the Lean model (their reality/positivity above threshold are hypotheses; C11/C12 are about them)",
     ),
